@@ -231,8 +231,9 @@ def finish(res, tier, seed, level, t0, checker_cmd, explanation=""):
     cov.update(_jsonable(res.extra))
     ev = {"property_id": prop, "tier": tier, "seed": int(seed), "level": level, "coverage": cov,
           "assumptions": res.assumptions, "wall_s": round(time.time() - t0, 2), "violations": nviol}
-    os.makedirs(os.path.join(ROOT, "evidence"), exist_ok=True)
-    with open(os.path.join(ROOT, "evidence", f"{prop}.json"), "w") as f:
+    evdir = os.environ.get("VERIF_EVIDENCE_DIR") or os.path.join(ROOT, "evidence")   # scratch runs on modified trees
+    os.makedirs(evdir, exist_ok=True)
+    with open(os.path.join(evdir, f"{prop}.json"), "w") as f:
         json.dump(_jsonable(ev), f, indent=1)
     if nviol:
         return 1
